@@ -66,12 +66,17 @@ def sp_method(path):
 
 
 def sp_rank(n):
-    return ['rank = %d' % n, 'rank(%d)' % n, 'rank = "%d"' % n, 'rank("%d")' % n]
+    out = ['rank = %d' % n, 'rank(%d)' % n, 'rank = "%d"' % n, 'rank("%d")' % n]
+    # every notation of the same integer literal, in both the name-value and the list form
+    sign, a = ('-', -n) if n < 0 else ('', n)
+    for lit in ('%s0x%x' % (sign, a), '%s0b%s' % (sign, bin(a)[2:]), '%s0o%o' % (sign, a), '%s%disize' % (sign, a), '%s%d_' % (sign, a), '%s0_%d' % (sign, a)):
+        out += ['rank = %s' % lit, 'rank(%s)' % lit]
+    return out
 
 
 def sp_bound(preds):
     j = ', '.join(preds)
-    return ['bound(%s)' % j, 'bound = "%s"' % j, 'bound("%s")' % j, 'bound(%s,)' % j]
+    return ['bound(%s)' % j, 'bound = "%s"' % j, 'bound("%s")' % j, 'bound(%s,)' % j, 'bound = "%s,"' % j, 'bound("%s ,")' % j, 'bound = "\n    %s,\n"' % ',\n    '.join(preds)]
 
 
 SP_BOUND_OFF = ['bound = false', 'bound(false)', 'bound = ""', 'bound("")']
